@@ -125,11 +125,22 @@ class C08(CleanBase):
             if extra_entries:
                 ops[0] = G.op_putfile(b"def/zz_verif_trace_test.snap", unhx(ops[0]["content"]) + b"".join(frame(i, b) for i, b in extra_entries))
             run2 = []
+            # a skipped test may have made its first call(s) before it called snaps.Skip: it is registered AND skipped, and its
+            # later occurrences (the calls it never reached) are protected like those of a test that made no call at all
+            partial = {t: r.range(1, 2) for t in skipped if r.chance(1, 3)}
+            made = {}
             for o in run:
                 if o["op"] == "match" and unhx(o["test"]) in skipped:
+                    t_ = unhx(o["test"])
+                    if made.get(t_, 0) < partial.get(t_, 0):
+                        made[t_] = made.get(t_, 0) + 1
+                        run2.append(o)
                     continue
                 if o["op"] == "endtest" and unhx(o["test"]) in skipped:
                     run2.append({"op": "skip", "test": o["test"], "form": r.choice(["", "f", "now"])})
+                    if unhx(o["test"]) in partial:
+                        run2.append(o)        # the execution ends (cleanups run) after the skip
+                    made[unhx(o["test"])] = 0
                     continue
                 run2.append(o)
             ci, upd = r.choice(G.ENVS)
